@@ -1686,6 +1686,7 @@ CheckChildForTraversal(TraversalContext & data, DataNode * nextChild, int32 optK
                                  depth = nextDepth;
                                  return true;
                               }
+                              if (nextDepth < (int)nextChild->GetDepth()) return false;  // the callback wants us to leave (nextChild) alone now, but our caller can go on with (nextChild)'s siblings
                               matched = true;
                               if (recursed) break;  // done both possible actions, so be lazy
                            }
@@ -1702,6 +1703,7 @@ CheckChildForTraversal(TraversalContext & data, DataNode * nextChild, int32 optK
                               depth = nextDepth;
                               return true;
                            }
+                           if (nextDepth < (int)nextChild->GetDepth()) return false;  // a callback below wants us to leave (nextChild) alone now, but our caller can go on with (nextChild)'s siblings
                            recursed = true;
                            if (matched) break;  // done both possible actions, so be lazy
                         }
